@@ -57,6 +57,7 @@ func runC18(c *Check, tier string) {
 	// an interrupt while outputs are written must not leave a record without its blobs
 	ruleUploadLoopComplete(c, "R18n")
 	rulePoolShutdownDoesNotBlock(c, "R18o")
+	ruleWrapperRunsCommandInPlace(c, "R18p")
 }
 
 // R18k: exec.CommandContext kills the child when the context is cancelled unless Cmd.Cancel is replaced. The
@@ -518,7 +519,7 @@ func ruleR18b(c *Check, rule string) {
 	// (1) root contexts
 	var roots []string
 	ok := true
-	for _, s := range c.G.CallsTo("context.Background", "context.TODO") {
+	for _, s := range c.G.CallsTo("context.Background", "context.TODO", "context.WithoutCancel") {
 		fn := engine.TopFunc(s.Parent())
 		where := c.P.FuncName(fn)
 		roots = append(roots, where)
@@ -530,7 +531,7 @@ func ruleR18b(c *Check, rule string) {
 			// shell completion helpers: no build is running
 		default:
 			ok = false
-			c.Bad(rule, "root-context/"+where, "a fresh root context is created here: work started on it is not cancelled by SIGINT/SIGTERM (shells keep running, the build does not stop)", c.P.InstrPos(s))
+			c.Bad(rule, "root-context/"+where, "a context that is detached from the signal-driven one is created here (Background/TODO/WithoutCancel): work started on it is not cancelled by SIGINT/SIGTERM (shells keep running, the build does not stop)", c.P.InstrPos(s))
 		}
 	}
 	sort.Strings(roots)
